@@ -55,6 +55,7 @@ class Ctx:
         self.samples = []
         self.nontrivial = set()
         self.violations = []
+        self.errors = []          # exceptions raised by monitors themselves (harness errors)
         self.case = None          # descriptor of the case currently being executed
         self.max_samples = 6
 
@@ -86,6 +87,21 @@ class Ctx:
         self.count("viol:" + mechanism)
         if len(self.violations) < 40 or not any(x["mechanism"] == mechanism for x in self.violations):
             self.violations.append(v)
+
+    def monitor_error(self, where):
+        import traceback
+        self.count("harness_errors")
+        if len(self.errors) < 10:
+            self.errors.append({"where": where, "case": jsonable(self.case), "tb": traceback.format_exc()[-2500:]})
+
+    def guard(self, fn, where="monitor"):
+        """Wrap a monitor callback: its own exceptions must never propagate into the code under observation."""
+        def guarded(*a, **k):
+            try:
+                return fn(*a, **k)
+            except Exception:
+                self.monitor_error(where)
+        return guarded
 
     def result(self):
         return {"counters": self.counters, "samples": self.samples,
